@@ -32,7 +32,8 @@ ASSUMPTIONS = [
     "a few grids as a conformance pass in the main process",
 ]
 
-POOLS = {"i": [3, 1, 2, 0], "f": [0.5, -1.0, 2.25, 1000.0],
+# (floats: one that needs all 17 digits and one far below 1e-12 among them)
+POOLS = {"i": [3, 1, 2, 0], "f": [0.5, 0.1 + 0.2, 2.5e-13, 1000.0],
          "s": ["q", "p", "zz", "A"],
          # one argument whose values are of several types
          "m": [3, 0.5, "zz", 2]}
